@@ -43,6 +43,7 @@ type MStep struct {
 type MCase struct {
 	M     MInst   `json:"m"`
 	Steps []MStep `json:"steps"`
+	Panic int     `json:"panic"` // source whose teardown panics (0 = none)
 	Raw   string  `json:"-"`
 }
 
@@ -159,12 +160,17 @@ func ReplayMulti(idx int, c *MCase, mode string, out *[]Mismatch) {
 func replayMulti(idx int, c *MCase, mode string, out *[]Mismatch) {
 	name := fmt.Sprintf("%s/%d", c.M.G, c.M.K)
 	add := func(step int, class, detail string) {
+		if c.Panic > 0 && !(class == "torn" && step == len(c.Steps)-1 && c.Steps[step].Exp.Closed) && class != "hang" {
+			// a panicking teardown may legitimately surface as an Error when the OPERATOR disposes a source (e.g. Race releasing the
+			// losers); with such a source only the C03 clause is judged: at the end every teardown has run exactly once
+			return
+		}
 		*out = append(*out, Mismatch{Case: idx, Chain: name, Mode: mode, Step: step, Class: class, Detail: detail})
 	}
 	ctls := make([]*Ctl, c.M.K)
 	srcs := make([]ro.Observable[any], c.M.K)
 	for i := range ctls {
-		ctls[i] = &Ctl{}
+		ctls[i] = &Ctl{PanicOnTeardown: c.Panic == i+1}
 		srcs[i] = ctls[i].Observable(mode, nil)
 	}
 	o, err := BuildMulti(c.M.G, srcs)
@@ -183,7 +189,8 @@ func replayMulti(idx int, c *MCase, mode string, out *[]Mismatch) {
 	base := context.WithValue(context.Background(), rec.KeySub, true)
 	guard := func(step int, f func()) {
 		defer func() {
-			if e := recover(); e != nil {
+			if e := recover(); e != nil && c.Panic == 0 {
+				// with a panicking teardown the joined panic legitimately surfaces in the disposing call; what matters is that every other teardown ran
 				add(step, "panic", fmt.Sprint(e))
 			}
 		}()
@@ -247,7 +254,10 @@ func replayMulti(idx int, c *MCase, mode string, out *[]Mismatch) {
 		add(len(c.Steps)-1, "late", fmt.Sprintf("%d notifications arrived after the step that caused them returned", late))
 	}
 	if r.sub != nil && !r.sub.IsClosed() {
-		r.sub.Unsubscribe()
+		func() {
+			defer func() { _ = recover() }() // a panicking teardown re-raises here
+			r.sub.Unsubscribe()
+		}()
 	}
 }
 
